@@ -87,3 +87,24 @@ package evaluator
 //@   requires argsOK(args)
 //@   requires forall o object.PanObject :: {traceArr(o)} traceArr(o) != nil ==> wfArr(traceArr(o))
 //@   requires forall o object.PanObject :: {traceRange(o)} traceRange(o) != nil ==> wfRange(traceRange(o))
+//
+// ---- C06: argument evaluation builds its keyword table in fresh memory -----------------------------
+//@ props C06
+// evalArgs merges every `**obj` into a fresh, private obj: the AddPairs call must target fresh memory.
+//@ func evaluator.evalArgs(argNodes, env) args, kwargs, err
+//@   assigns EC
+//@   loop 1 invariant unpackedKwargs != nil && fresh(unpackedKwargs) && unpackedKwargs.Pairs != nil && fresh(unpackedKwargs.Pairs) && *unpackedKwargs.Pairs != nil && fresh(*unpackedKwargs.Pairs)
+//@   loop 1 invariant fresh(args)
+//
+//@ func evaluator.evalKwargs(kwargs, env) res, err
+//@   ensures  err == nil ==> res != nil && fresh(res) && res.Pairs != nil && fresh(res.Pairs) && *res.Pairs != nil && fresh(*res.Pairs)
+//@   assigns  EC
+//@   loop 1 invariant fresh(pairMap) && pairMap != nil
+//
+// extractEmbeddedElems appends to the caller's (private) list of non-hashable pairs
+//@ func evaluator.extractEmbeddedElems(node, env, nonHashablePairs) pairs, err
+//@   assigns EC, nonHashablePairs
+//@   loop 1 invariant fresh(pairs) && (fresh(nonHashablePairs) || arrOf(nonHashablePairs) == arrOf(nonHashablePairs0))
+//@   loop 2 invariant fresh(pairs) && (fresh(nonHashablePairs) || arrOf(nonHashablePairs) == arrOf(nonHashablePairs0))
+//@   loop 3 invariant fresh(pairs) && (fresh(nonHashablePairs) || arrOf(nonHashablePairs) == arrOf(nonHashablePairs0))
+//@   loop 4 invariant fresh(pairs) && (fresh(nonHashablePairs) || arrOf(nonHashablePairs) == arrOf(nonHashablePairs0))
